@@ -190,7 +190,7 @@ fn resp2_kind_value_ok(r: &ctap2::Response) -> (&'static str, bool) {
     }
 }
 
-fn expected_args2(req: &ctap2::Request) -> Value {
+pub fn expected_args2(req: &ctap2::Request) -> Value {
     let mut bw = Borrow::new(&[]);
     use ctap2::Request::*;
     match req {
